@@ -395,6 +395,14 @@ fn phase1(
         // transpositions: later arrivals at a state must be indistinguishable from the first
         if pn == ex && ep_ok {
             let k2 = pn.key();
+            // the in-place entry point's result, when it is not indistinguishable from the other one although it shows the
+            // same position: every per-state comparison is then made on it too (moves generated from it, status, ...)
+            if n2 != n1 && proj(&n2) == pn {
+                let e = alts.entry(k2.clone()).or_insert_with(Vec::new);
+                if e.len() < 4 && !e.contains(&n2) {
+                    e.push(n2);
+                }
+            }
             match map.get(&k2) {
                 Some(first) => {
                     rep.count("transposition_arrivals", 1);
